@@ -168,23 +168,34 @@ impl Crypto {
         Ed25519KeyPair::from_seed_unchecked(&key).unwrap()
     }
 
+    fn pad_key(mut key: Vec<u8>) -> Vec<u8> {
+        // The text form of a key does not preserve leading zero bytes, restore the fixed key length
+        while key.len() < ED25519_PUBLIC_KEY_LEN {
+            key.insert(0, 0);
+        }
+        key
+    }
+
     fn parse_keypair(privkey: &str, pubkey: &str) -> Result<Ed25519KeyPair, Error> {
-        let privkey = from_base62(privkey).map_err(|_| Error::InvalidConfig("Failed to parse private key"))?;
-        let pubkey = from_base62(pubkey).map_err(|_| Error::InvalidConfig("Failed to parse public key"))?;
+        let privkey =
+            Self::pad_key(from_base62(privkey).map_err(|_| Error::InvalidConfig("Failed to parse private key"))?);
+        let pubkey =
+            Self::pad_key(from_base62(pubkey).map_err(|_| Error::InvalidConfig("Failed to parse public key"))?);
         let keypair = Ed25519KeyPair::from_seed_and_public_key(&privkey, &pubkey)
             .map_err(|_| Error::InvalidConfig("Keys rejected by crypto library"))?;
         Ok(keypair)
     }
 
     fn parse_private_key(privkey: &str) -> Result<Ed25519KeyPair, Error> {
-        let privkey = from_base62(privkey).map_err(|_| Error::InvalidConfig("Failed to parse private key"))?;
+        let privkey =
+            Self::pad_key(from_base62(privkey).map_err(|_| Error::InvalidConfig("Failed to parse private key"))?);
         let keypair = Ed25519KeyPair::from_seed_unchecked(&privkey)
             .map_err(|_| Error::InvalidConfig("Key rejected by crypto library"))?;
         Ok(keypair)
     }
 
     fn parse_public_key(pubkey: &str) -> Result<Ed25519PublicKey, Error> {
-        let pubkey = from_base62(pubkey).map_err(|_| Error::InvalidConfig("Failed to parse public key"))?;
+        let pubkey = Self::pad_key(from_base62(pubkey).map_err(|_| Error::InvalidConfig("Failed to parse public key"))?);
         if pubkey.len() != ED25519_PUBLIC_KEY_LEN {
             return Err(Error::InvalidConfig("Failed to parse public key"));
         }
